@@ -6,7 +6,12 @@ import (
 
 	"github.com/zenon-network/go-zenon/common/types"
 	"github.com/zenon-network/go-zenon/vm/abi"
+	"github.com/zenon-network/go-zenon/vm/constants"
+	"github.com/zenon-network/go-zenon/vm/embedded"
 	"github.com/zenon-network/go-zenon/vm/embedded/definition"
+	"github.com/zenon-network/go-zenon/vm/vm_context"
+
+	"verifmc/internal/vnode"
 )
 
 // contractDef is one embedded contract: its address and the ABI GetEmbeddedMethod resolves selectors with.
@@ -39,14 +44,47 @@ func methodNames(a abi.ABIContract) []string {
 	return out
 }
 
-func Dev(args []string) {
-	switch args[0] {
-	case "abi":
-		for _, c := range contracts {
-			for _, n := range methodNames(c.ABI) {
-				m := c.ABI.Methods[n]
-				fmt.Printf("%-12s %s\n", c.Name, m.String())
+type methodRef struct {
+	C *contractDef
+	M abi.Method
+}
+
+func (m methodRef) key() string { return m.C.Name + "." + m.M.Name }
+
+// methodTable asks the implementation (embedded.GetEmbeddedMethod, at the node's frontier) which of the ABI-declared
+// methods exist in the regime the node's chain is in. Returns the available ones and the declared-but-absent ones.
+func methodTable(n *vnode.Node) (avail, absent []methodRef) {
+	st := n.Chain.GetFrontierMomentumStore()
+	fm, err := st.GetFrontierMomentum()
+	must(err)
+	for i := range contracts {
+		c := &contracts[i]
+		if len(types.EmbeddedContracts) != len(contracts) {
+			panic("embedded contract list changed")
+		}
+		ctx := vm_context.NewAccountContext(st, n.Chain.GetFrontierAccountStore(c.Addr), n.Cons.FixedPillarReader(fm.Identifier()))
+		for _, name := range methodNames(c.ABI) {
+			m := c.ABI.Methods[name]
+			impl, err := embedded.GetEmbeddedMethod(ctx, c.Addr, m.Id())
+			switch {
+			case err == nil && impl != nil:
+				avail = append(avail, methodRef{c, m})
+			case err == constants.ErrContractMethodNotFound || err == constants.ErrContractDoesntExist:
+				absent = append(absent, methodRef{c, m})
+			default:
+				panic(fmt.Sprintf("GetEmbeddedMethod(%s.%s): %v", c.Name, name, err))
 			}
 		}
 	}
+	return
+}
+
+// expected table sizes per regime, from reading vm/embedded/embedded.go at the pinned commit (vacuity guard: the
+// reflection over the ABI definitions and the implementation's tables must agree with the reading).
+var expectedAvail = map[string]int{
+	"origin":                  32,
+	"accelerator":             40,
+	"accelerator+bridge":      71,
+	"accelerator+htlc":        76,
+	"accelerator+bridge+htlc": 76,
 }
